@@ -93,8 +93,8 @@ ABSORB_DIST_FISTA = 5e-2    # FISTA: after the collapse the momentum term carrie
 CAP_FRACTION_FIRST_ORDER = 0.08
 CAP_FRACTION = 0.02
 CAP_MIN_RUNS = 200
-CAP_QUICK_PER_STACK = 3    # quick: absolute counts (a stack has 10–25 runs; measured max 1)
-CAP_QUICK_TOTAL = 12       # (≈ 200 runs; measured 0–6: one hard instance is run on all 12–14 stacks)
+CAP_QUICK_PER_STACK = 5    # quick: absolute counts (a stack has 10–25 runs; measured over 256 + 29 seeds: max 3, in 2 seeds)
+CAP_QUICK_TOTAL = 16       # (≈ 200 runs; measured 0–7: one hard instance is run on all 12–14 stacks)
 
 
 def pstack(stack):
@@ -696,7 +696,7 @@ def lean_certify(op, qp, xs, ys):
     toks = ['kkt', str(qp.n), str(qp.m), H('Q'), H('c'), H('A'), H('Clb'), H('Cub'), H('Dlb'), H('Dub'),
             ' '.join(rat(a) for a in xs), ' '.join(rat(a) for a in ys), op['mu'], str(op.nat('Bk')), H('B')]
     line = ' '.join(t for t in toks if t != '')
-    out, rc, err = C.run_lines(exe, [line], timeout=120)
+    out, rc, err = C.run_lines(exe, [line], timeout=900)
     G['lean_calls'] += 1
     return (out[0].strip() if out else f'no output rc={rc} {err[-200:]}'), line
 
@@ -829,7 +829,10 @@ def _monitor(op_line, out_line, st):
         xs_inf = max([abs(float(a)) for a in xs] + [0.0])
         solver = stack.split('-')[0]
         tol_below_floor = tol <= ABSORB_TOL_FACTOR * floor
-        at_floor = float(qp.mu) * dist <= ABSORB_DIST_FACTOR * floor
+        # under ALM the inner problem is ψ = f + penalty: its rounding floor scales with sqrt(L_ψ / L_f)
+        # (ε_floor ∝ sqrt(L); measured μ·dist/ε_floor up to 8.4 at penalty 506 with the un-scaled floor)
+        floor_d = floor * math.sqrt(L_ref / L0) if mode == 'alm' and L0 > 0 else floor
+        at_floor = float(qp.mu) * dist <= ABSORB_DIST_FACTOR * floor_d
         if solver == 'fista':
             at_floor = at_floor or dist <= ABSORB_DIST_FISTA * (1.0 + xs_inf)
         collapsed = g == g and 0 < g * L_ref < 2.0 ** -10
